@@ -319,6 +319,11 @@ class Executor:
       keys.append(kv.s)
     return [(q, VDict(dict(zip(keys, vs)))) for q, vs in self.ev_list(e.values, p, module)]
 
+  def ev_GeneratorExp(self, e, p, module):
+    # a generator handed straight to a consumer (sum / any / all / np.sum / list / set ...) is evaluated as the list of its
+    # elements; the element expressions of the comprehensions in scope have no side effects the order of which could matter
+    return self.ev_ListComp(e, p, module)
+
   def ev_ListComp(self, e, p, module):
     if len(e.generators) != 1 or not isinstance(e.generators[0].target, ast.Name):
       raise Unsupported('comprehension form (line %d)' % e.lineno)
